@@ -134,6 +134,26 @@ Definition stmt_collapse_idempotent : Prop :=
   forall T (cs : list (cone (T:=T))), collapse (collapse cs) = collapse cs.
 Definition stmt_collapse_nvars : Prop :=
   forall T (cs : list (cone (T:=T))), total_nvars (collapse cs) = total_nvars cs.
+(** exactly which cone lists are saved literally: those already in the collapsed normal form
+    (no empty cone, no SOC(1)/PSD(1), no two adjacent nonnegative cones) *)
+Fixpoint cones_normal {T} (cs : list (cone (T:=T))) : Prop :=
+  match cs with
+  | [] => True
+  | c :: r =>
+      nvars c <> 0%N /\
+      (match c with
+       | NonnegC _ => match r with NonnegC _ :: _ => False | _ => True end
+       | _ => collapsible c = None
+       end) /\ cones_normal r
+  end.
+Definition stmt_collapse_identity_iff : Prop :=
+  forall T (cs : list (cone (T:=T))), collapse cs = cs <-> cones_normal cs.
+(** b is saved literally exactly when no entry exceeds the infinity bound *)
+Definition stmt_cap_b_identity : Prop :=
+  forall T (O : Ops T) (infbound : T) (b : list T),
+    Forall (fun x => ltb O infbound x = false) b -> cap_b O infbound b = b.
+Definition stmt_b_literal_refuted : Prop :=
+  exists b : list float, cap_b OpsF 1e20%float b <> b.
 (** the literal reading "saved cones = the user's list" fails (known finding, inert) *)
 Definition stmt_cones_literal_refuted : Prop :=
   exists cs : list (cone (T:=Z)), collapse cs <> cs /\ total_nvars (collapse cs) = total_nvars cs.
